@@ -235,14 +235,19 @@ def replay_pynorm(case):
 def pynorm_leg(ctx: Ctx, depth: int):
     out = workdir("c15") / "pynorm.ndjson"
     out.unlink(missing_ok=True)
-    cfg = f'SPECIFICATION Spec\nCONSTANTS\n  Emit = TRUE\n  Variant = "fixed"\n  Depth = {depth}\nINVARIANT Faithful\nINVARIANT EmitCase\n'
+    base = f'SPECIFICATION Spec\nCONSTANTS\n  Emit = TRUE\n  Variant = "fixed"\n  Depth = {depth}\n'
+    cfg = base + "INVARIANT Faithful\nINVARIANT ScanOK\nINVARIANT ScanLossless\nINVARIANT EmitCase\n"
     r = run_tlc("MC_PyNorm", cfg, tag="c15p", env={"OUT_FILE": str(out)}, timeout=3000)
     if r.violated:
         ctx.model_violation(r, "MC_PyNorm")
-    ctx.add_tlc(r, f"python normalisation: alias / format / restore is faithful (normal form = canonical formatting with quoted names verbatim); call expressions of depth <= {depth}")
-    v = run_tlc("MC_PyNorm", cfg.replace('"fixed"', '"pinned"').replace("Emit = TRUE", "Emit = FALSE"), tag="c15p", timeout=3000)
+    ctx.add_tlc(r, f"python normalisation: scan / alias / format / restore is faithful (the scanner finds exactly the quoted names, loses no character; normal form = canonical formatting with quoted names verbatim); call expressions of depth <= {depth}")
+    v = run_tlc("MC_PyNorm", (base + "INVARIANT Faithful\n").replace('"fixed"', '"pinned"').replace("Emit = TRUE", "Emit = FALSE"), tag="c15p", timeout=3000)
     if "Faithful" not in v.violated:
         raise MachineryError("MC_PyNorm: the pinned alias algorithm does not violate Faithful - the expression family is vacuous")
+    v = run_tlc("MC_PyNorm", (base + "INVARIANT ScanOK\n").replace('"fixed"', '"pinned-scan"').replace("Emit = TRUE", "Emit = FALSE"), tag="c15p", timeout=3000)
+    if "ScanOK" not in v.violated:
+        raise MachineryError("MC_PyNorm: the pinned scanner does not violate ScanOK - no expression of the family tells the scanners apart")
+    ctx.notes["pynorm_design_errors_refuted"] = ["pinned (aliases)", "pinned-scan (string pattern, quote characters inside names)"]
     cases = read_emitted(out)
     out.unlink()
     if len(cases) != r.distinct:
